@@ -59,7 +59,8 @@ Lemma tstep_spec rec t :
   (match nx with TGo t' => tinv rec' t' | TEnd CPanic => False | TEnd COk => trev t <= floor_of rec' | TEnd CErr => True end) /\
   floor_of rec <= floor_of rec'.
 Proof.
-  intros Hw [[Hrv Ht] Hfl]. destruct t as [rv n|val rv n|rv k a|val rv k a]; cbn [tstep trev] in *.
+  intros Hw [[Hrv Ht] Hfl]. destruct t as [rv n|val rv n|rv k a|val rv k a|rd|rd]; cbn [tstep trev] in *;
+    try solve [split; [exact Hw|]; split; [split; [split; [exact Hrv|exact I]|exact I]|lia]].
   - (* setCompactRecord: Get *)
     destruct Hw as [->|[c [-> Hc]]].
     + split; [left; reflexivity|]. split; [|lia].
